@@ -9,6 +9,8 @@ import (
 	_ "verif/internal/props/c01"
 	_ "verif/internal/props/c02"
 	_ "verif/internal/props/c03"
+	_ "verif/internal/props/c04"
+	_ "verif/internal/props/c05"
 	_ "verif/internal/props/c06"
 	_ "verif/internal/props/c07"
 	_ "verif/internal/props/c08"
